@@ -1,20 +1,65 @@
+import SaModel.Basic.Outcome
+import SaModel.Basic.Float
 import SaModel.Data.Arr
-import SaModel.Read.DVal
+import SaModel.Data.DVal
+import SaModel.Spec.Decode
 /-
-How a LEAF logical value is presented to a self-describing visitor (`deserialize_any`) — the specification's own
-statement, written from the documentation and the Arrow type semantics; imports the data vocabulary only
-(`Data/Arr.lean`, `Read/DVal.lean`: the visitor calls), NOT the reader model (`Read/Reader.lean`).
-`Lemmas/C02PresentBridge.lean` proves that the reader model's `primAny` / `timeAny` and the leaf clauses of `Read.toD`
-compute it.
+READER-SIDE SPECIFICATION — what a read of a LOGICAL VALUE (`Spec.decode`) gives, for every serde request.
 
-* integer columns: a visitor call of the column's OWN width carrying the number (`Int8` → `visit_i8` … `UInt64` → `visit_u64`);
-* `Float32` → `visit_f32`, `Float64` → `visit_f64`, same bits; `Float16` → `visit_f32` of the exact widening
-  (Status.md: "Float16: can be serialized / deserialized from Rust `f32`"; `half::f16::to_f32`, `Read.f16ToF32`);
-* `Date32` (days, 32 bit) → `visit_i32`, `Date64` (milliseconds, 64 bit) → `visit_i64`; `Time32` → `visit_i32`;
-  `Time64`, `Duration`, `Timestamp` → `visit_i64`: the storage integer of the Arrow type.
+Written from the crate's documentation and the serde data model, NOT from the reader model: this file imports `Data/*`,
+`Basic/*` and `Spec/Decode.lean` only (nothing of `Read/*`, nothing of `Codec/*`).  `Lemmas/C02PresentBridge*.lean` prove that
+the functions the C02 / C05 theorems were stated with — `Read.toD`, `Read.castLeaf`, `Read.castScalar`, `Read.cast` (which call
+the reader model's `primAny`, `timeAny`, `u8As`, `dateRepr` …) — compute these tables, cell by cell, and restate the headline
+theorems against them (`Props.C02.read_any_present`, `read_typed_present`, `typed_present_total`).
+
+  `presentAny c a lv`       what `deserialize_any` hands to the visitor
+  `presentLeaf c t k`       a scalar request `t` (`bool`, `i8` … `u64`, `f32`, `f64`, `char`, `String`, `&str`, `&[u8]`, `ByteBuf`,
+                            `()`) at a leaf value of kind `k`: the value of the requested Rust type, or `fails`
+  `typedRead c t a lv`      every request (scalars, `Option`, newtype, `Vec`, tuples, maps, structs by field name, enums, any,
+                            `IgnoredAny`; nested to any depth)
+
+Sources (serde_arrow/Status.md "Arrow data types" / "Rust types", Changes.md, the statement of C05, the serde data model):
+* INTEGERS.  `i8` … `u64` ↔ `Int8` … `UInt64`: a requested integer type gets the NUMBER, whenever it lies in the range of the
+  REQUESTED type — the column width does not matter; outside: the read fails (C05: "integers out of range in both directions").
+* `bool` from integer columns: "Add support to serialize / deserialize `bool` from integer arrays" (Changes.md 0.12.0): 0 is
+  `false`, 1 is `true`; any other number is not a `bool`: the read fails (C05: never "silently altered").  [The crate answers
+  `true` for every non-zero number: known finding #24.]
+* `char`: "serialized as u32" (Status.md): read back from the number; a number that is not a `u32` or not a Unicode scalar value
+  (surrogates, > 0x10FFFF) fails (C05: "invalid code points").
+* FLOATS.  `Float32` ↔ `f32`, `Float64` ↔ `f64` bit for bit; "Float16: can be serialized / deserialized from Rust `f32`": the
+  exact widening.  A wider request (`f64` from `Float16` / `Float32`) is the exact widening; `f32` from `Float64` is the
+  documented lossy "float narrowing" (C05): the nearest `f32`, ties to even (`Basic/Float.lean`).  No integer ↔ float reads.
+* TEMPORAL columns.  Status.md, chrono / jiff sections: `NaiveDate` / `jiff::Date` ↔ `Date32`, `NaiveTime` / `jiff::Time` ↔
+  `Time32` / `Time64`, `NaiveDateTime` / `jiff::DateTime` ↔ `Timestamp(.., None)`, `DateTime<Utc>` / `jiff::Timestamp` ↔
+  `Timestamp(.., Some("UTC"))`, `jiff::Span` / `SignedDuration` ↔ `Duration`: "is serialized / deserialized as strings" — a
+  string request gets the TEXT of the value.  The texts are functions of chrono / of the crate's own formatters: the parameter
+  `TextCodec` (their correctness is C14 / C15); a value the formatter refuses (outside chrono's date range, a time of day < 0 or
+  ≥ 24 h) makes the read fail.  "With `chrono::serde::ts_microseconds`: is serialized / deserialized as `i64`": an integer
+  request of the storage kind gets the stored number.
+* `Decimal128`: "`Decimal128` arrays are always deserialized as string" — a string request gets the decimal text, `deserialize_any`
+  presents the text; no other request is answered.
+* STRINGS.  `Utf8` / `LargeUtf8` / `Utf8View` ↔ `String`, `&str` ("Allow to perform zero-copy deserialization from arrow arrays",
+  Changes.md 0.11.0: borrowed from the array); `Dictionary(_, Utf8 | LargeUtf8)`: the string behind the key; "enums without
+  data as strings": a unit variant by its name.  A text the reader CREATES (temporal, decimal) cannot be borrowed: `&str` /
+  `&[u8]` requests fail there.
+* BINARY.  `Binary` / `LargeBinary` / `BinaryView` / `FixedSizeBinary` ↔ `&[u8]` (borrowed), `ByteBuf`, `Vec<u8>` (a sequence of `u8`).
+* `Option<T>`: `None` exactly at a null slot.  "`()`: serialized as a missing value, `Option<()>` is always deserialized as `None`".
+  A null slot read into anything that is not an `Option` (and not `()` at a `Null` column) fails (C05: never "substitutes a …
+  default").  [Container columns return the hidden child data there: known finding #23.]
+* `struct S {..}` by field NAME from a `Struct` column (a field without column: `None` for `Option`, else "a missing required
+  field" fails); tuples by position; `Vec<T>` from `List` / `LargeList` / `FixedSizeList`; maps from `Map` columns and from
+  `Struct` columns (field names as keys); enums from dense `Union` columns (variant by name, or by index).
+
+WHICH requests a column answers at all beyond the pairs named above (Boolean as an integer 0 / 1; `Date32` / `Date64` / `Time32` /
+`Time64` as `i32` and `i64`, `Duration` / `Timestamp` as `i64` only; temporal texts as `ByteBuf`; a `Utf8` string as `ByteBuf`
+but not a dictionary string) is not in the prose documentation: these rows are marked `[offer matrix]` below; the matrix of
+the crate is read from the sources by the translated obligation `Props/C02Gen.lean` (`gen_reader_matrix`).  WHAT an answered
+request hands over is this file.
 -/
 namespace SaModel.Spec
 open SaModel SaModel.Read
+
+/-! ### leaf renderings of `deserialize_any` (stated first, used below) -/
 
 /-- the Rust integer type in which an integer-backed primitive column is presented (`none`: a float column) -/
 def presentedIntTy : PrimTy → Option IntTy
@@ -23,7 +68,9 @@ def presentedIntTy : PrimTy → Option IntTy
   | .date32 => some .i32 | .date64 => some .i64
   | .float16 | .float32 | .float64 => none
 
-/-- a slot of a primitive column, as `deserialize_any` presents it -/
+/-- a slot of a primitive column, as `deserialize_any` presents it: integer columns a visitor call of the column's OWN width;
+`Float32` → `visit_f32`, `Float64` → `visit_f64`, same bits; `Float16` → `visit_f32` of the exact widening; `Date32` (days,
+32 bit) → `visit_i32`, `Date64` (milliseconds, 64 bit) → `visit_i64` -/
 def presentPrim (ty : PrimTy) (x : Int) : DVal :=
   match presentedIntTy ty with
   | some t => .int t x
@@ -41,5 +88,421 @@ def presentTime : TimeTy → Int → DVal
 
 /-- an element of a binary column read as a sequence: a `u8` -/
 def presentByte (b : UInt8) : DVal := .int .u8 b.toNat
+
+/-! ### the texts of temporal and decimal values: functions of other crates / of the codecs of C14 and C15 -/
+
+/-- the text of a temporal / decimal value (chrono's `Display` of `NaiveDate` / `NaiveTime` / `NaiveDateTime` / `DateTime<Utc>`,
+the crate's `format_arrow_duration_as_span`, `format_decimal`): parameters of the specification; `none` = the formatter refuses
+the value.  The instance of the reader model is `Read.readCodec` (`Read/PresentCodec.lean`) (`Codec/*.lean`; what THOSE compute is C14 / C15). -/
+structure TextCodec where
+  date : Bool → Int → Option Bytes := fun _ _ => none                 -- `true`: Date64 (milliseconds), `false`: Date32 (days)
+  time : TimeUnit → Int → Option Bytes := fun _ _ => none             -- time of day in units
+  timestamp : TimeUnit → Bool → Int → Option Bytes := fun _ _ _ => none   -- units since the epoch; `true`: UTC ("…Z"), `false`: naive
+  duration : TimeUnit → Int → Bytes := fun _ _ => []                  -- an ISO 8601 span, total
+  decimal : Int → Int → Bytes := fun _ _ => []                        -- scale, unscaled value; total on i128 × i8
+
+/-- Status.md: "only no timezone or UTC is supported"; the zone name is compared case-insensitively -/
+def zoneIsUtc : Option String → Bool
+  | some tz => tz.toLower == "utc"
+  | none => false
+
+/-! ### outcomes of the specification -/
+
+/-- what the specification says about one (request, column, value) cell -/
+inductive Demand (α : Type) where
+  | value (a : α)     -- the read must return exactly this
+  | fails             -- the read must fail
+  | unclaimed         -- no claim: ONLY a by-name struct read where field names repeat (`byName`)
+deriving Repr, DecidableEq
+
+namespace Demand
+variable {α β : Type}
+
+def map (f : α → β) : Demand α → Demand β
+  | .value a => .value (f a)
+  | .fails => .fails
+  | .unclaimed => .unclaimed
+
+def bind (x : Demand α) (f : α → Demand β) : Demand β :=
+  match x with
+  | .value a => f a
+  | .fails => .fails
+  | .unclaimed => .unclaimed
+
+/-- two parts of one read: a failing part makes the whole read fail; otherwise an unclaimed part leaves the whole unclaimed -/
+def both : Demand α → Demand β → Demand (α × β)
+  | .fails, _ => .fails
+  | _, .fails => .fails
+  | .value a, .value b => .value (a, b)
+  | _, _ => .unclaimed
+
+/-- a first part and the remaining parts -/
+def cons (x : Demand α) (rest : Demand (List α)) : Demand (List α) := (both x rest).map fun p => p.1 :: p.2
+
+def all : List (Demand α) → Demand (List α)
+  | [] => .value []
+  | x :: xs => cons x (all xs)
+
+def ofOption : Option α → Demand α
+  | some a => .value a
+  | none => .fails
+
+end Demand
+
+/-- the child of a union column with type id `t` -/
+def variantOf : ArrUFields → Int → Option (FieldMeta × Arr)
+  | .nil, _ => none
+  | .cons i fm a r, t => if i == t then some (fm, a) else variantOf r t
+
+/-! ### `deserialize_any` — the self-describing presentation of a logical value
+
+`Option`-like: a null slot is `visit_none`, every other slot is presented directly (no `visit_some` wrapper); integers in the
+column's own width; temporal columns as their storage integer (`presentPrim`, `presentTime`; a Timestamp as `i64`); a
+Decimal128 as its text ("always deserialized as string"; created on the fly: transient); strings and binary borrowed from the
+array; a struct as a map from the field names; lists as sequences; maps as maps; a union value as the enum `name(payload)`. -/
+mutual
+def presentAny (c : TextCodec) : Arr → LVal → DVal
+  | _, .null => .none
+  | _, .bool b => .bool b
+  | .prim ty _ _, .int x | .prim ty _ _, .float x => presentPrim ty x
+  | .time ty _ _ _, .int x => presentTime ty x
+  | .timestamp _ _ _ _, .int x => .int .i64 x
+  | .decimal128 _ s _ _, .int x => .str .transient (c.decimal s x)
+  | _, .str b => .str .borrowed b
+  | _, .bin b => .bytes .borrowed b
+  | .struct _ _ fs, .struct lfs => .map (presentFields c fs lfs)
+  | .list _ _ _ _ el, .list items | .fixedSizeList _ _ _ _ el, .list items => .seq (presentItems c el items)
+  | .map _ _ _ ks vs, .map es => .map (presentEntries c ks vs es)
+  | .union _ _ fs, .union t v =>
+    match variantOf fs t with                                   -- the variant with that type id: its name and its payload
+    | some (fm, child) => .enum (.str .transient (strBytes fm.name)) (presentAny c child v)
+    | none => .none
+  | _, _ => .none
+def presentItems (c : TextCodec) : Arr → LVals → DVals
+  | _, .nil => .nil
+  | el, .cons v r => .cons (presentAny c el v) (presentItems c el r)
+def presentFields (c : TextCodec) : ArrFields → LFields → DEntries
+  | .cons fm a rest, .cons _ v lrest => .cons (.str .transient (strBytes fm.name)) (presentAny c a v) (presentFields c rest lrest)
+  | _, _ => .nil
+def presentEntries (c : TextCodec) : Arr → Arr → LEntries → DEntries
+  | _, _, .nil => .nil
+  | ks, vs, .cons k v r => .cons (presentAny c ks k) (presentAny c vs v) (presentEntries c ks vs r)
+end
+
+/-! ### leaf values and scalar requests -/
+
+/-- the kind of a non-null leaf value: the logical value together with what the column type says about it -/
+inductive SlotKind where
+  | truth (b : Bool)                                         -- Boolean
+  | number (x : Int)                                         -- Int8 … UInt64
+  | date (is64 : Bool) (x : Int)                             -- Date32 (days) / Date64 (milliseconds)
+  | timeOfDay (u : TimeUnit) (x : Int)                       -- Time32 / Time64
+  | span (u : TimeUnit) (x : Int)                            -- Duration
+  | instant (u : TimeUnit) (utc : Bool) (x : Int)            -- Timestamp, naive or UTC
+  | decimal (scale : Int) (x : Int)                          -- Decimal128
+  | half (bits : Int) | single (bits : Int) | double (bits : Int)   -- Float16 / Float32 / Float64
+  | text (viaDictionary : Bool) (utf8 : Bytes)               -- Utf8 / LargeUtf8 / Utf8View, or the string behind a dictionary key
+  | binary (b : Bytes)                                       -- Binary / LargeBinary / BinaryView / FixedSizeBinary
+  | other                                                    -- null, containers, a value that does not fit its column
+deriving Repr, DecidableEq
+
+def intWidth : PrimTy → Bool
+  | .int8 | .int16 | .int32 | .int64 | .uint8 | .uint16 | .uint32 | .uint64 => true
+  | _ => false
+
+/-- `.bool` / `.int` / `.float` values are read through the column type; `.str` / `.bin` values carry their kind themselves (a
+dictionary column is remembered: it answers fewer requests) -/
+def leafKind : Arr → LVal → SlotKind
+  | .boolean _ _ _, .bool b => .truth b
+  | .prim ty _ _, .int x =>
+    if intWidth ty then .number x
+    else match ty with
+      | .date32 => .date false x
+      | .date64 => .date true x
+      | _ => .other
+  | .prim ty _ _, .float x =>
+    (match ty with
+     | .float16 => .half x
+     | .float32 => .single x
+     | .float64 => .double x
+     | _ => .other)
+  | .time ty u _ _, .int x => (match ty with | .duration => .span u x | _ => .timeOfDay u x)
+  | .timestamp u tz _ _, .int x => .instant u (zoneIsUtc tz) x
+  | .decimal128 _ s _ _, .int x => .decimal s x
+  | .dictionary _ _, .str b => .text true b
+  | _, .str b => .text false b
+  | _, .bin b => .binary b
+  | _, _ => .other
+
+/-- a Unicode scalar value -/
+def isUnicodeScalar (c : Nat) : Bool := c < 0xD800 || (0xE000 ≤ c && c ≤ 0x10FFFF)
+
+/-- a NUMBER read as an integer type (by value, in the range of the requested type), as `bool` (0 / 1), as `char` (a `u32`
+that is a Unicode scalar value) -/
+def numberAs (t : Target) (x : Int) : Demand DVal :=
+  match t with
+  | .int ty => if ty.inRange x then .value (.int ty x) else .fails
+  | .bool => if x == 0 then .value (.bool false) else if x == 1 then .value (.bool true) else .fails
+  | .char => if IntTy.u32.inRange x && isUnicodeScalar x.toNat then .value (.char x.toNat) else .fails
+  | _ => .fails
+
+/-- the stored number of a temporal column requested as one of the integer types `offered` for it [offer matrix] -/
+def storedAs (offered : List IntTy) (ty : IntTy) (x : Int) : Demand DVal :=
+  if offered.contains ty then (if ty.inRange x then .value (.int ty x) else .fails) else .fails
+
+/-- a text the reader CREATES (temporal, decimal): owned — `String`, and `ByteBuf` where `asBytes` [offer matrix]; never borrowed -/
+def createdText (asBytes : Bool) (t : Target) (text : Option Bytes) : Demand DVal :=
+  match t with
+  | .string => (Demand.ofOption text).map (.str .owned)
+  | .byteBuf => if asBytes then (Demand.ofOption text).map (.bytes .owned) else .fails
+  | _ => .fails
+
+/-- `f64 → f32`: the documented lossy narrowing (nearest, ties to even), on bit patterns -/
+def narrow (bits : Int) : Int := Int.ofNat (Float.convert Float.f64 Float.f32 (bits.toNat % 18446744073709551616))
+
+/-- **the leaf table**: a scalar request at a non-null leaf value -/
+def presentLeaf (c : TextCodec) (t : Target) : SlotKind → Demand DVal
+  | .truth b =>
+    (match t with
+     | .bool => .value (.bool b)
+     | .int ty => .value (.int ty (if b then 1 else 0))          -- [offer matrix] a Boolean as the number 0 / 1
+     | _ => .fails)
+  | .number x => numberAs t x
+  | .date is64 x =>
+    (match t with
+     | .int ty => storedAs [.i32, .i64] ty x
+     | _ => createdText true t (c.date is64 x))
+  | .timeOfDay u x =>
+    (match t with
+     | .int ty => storedAs [.i32, .i64] ty x
+     | _ => createdText true t (c.time u x))
+  | .span u x =>
+    (match t with
+     | .int ty => storedAs [.i64] ty x
+     | _ => createdText true t (some (c.duration u x)))
+  | .instant u utc x =>
+    (match t with
+     | .int ty => storedAs [.i64] ty x
+     | _ => createdText true t (c.timestamp u utc x))
+  | .decimal s x => createdText false t (some (c.decimal s x))    -- "always deserialized as string"
+  | .half bits =>
+    (match t with
+     | .f32 => .value (.f32 (f16ToF32 bits))
+     | .f64 => .value (.f64 (f32ToF64 (f16ToF32 bits)))
+     | _ => .fails)
+  | .single bits =>
+    (match t with
+     | .f32 => .value (.f32 bits)
+     | .f64 => .value (.f64 (f32ToF64 bits))
+     | _ => .fails)
+  | .double bits =>
+    (match t with
+     | .f32 => .value (.f32 (narrow bits))
+     | .f64 => .value (.f64 bits)
+     | _ => .fails)
+  | .text viaDictionary b =>
+    (match t with
+     | .string => .value (.str .owned b)
+     | .str => .value (.str .borrowed b)
+     | .byteBuf => if viaDictionary then .fails else .value (.bytes .owned b)   -- [offer matrix]
+     | _ => .fails)
+  | .binary b =>
+    (match t with
+     | .bytes => .value (.bytes .borrowed b)
+     | .byteBuf => .value (.bytes .owned b)
+     | _ => .fails)
+  | .other => .fails
+
+def isNullColumn : Arr → Bool
+  | .null _ => true
+  | _ => false
+
+def isNullValue : LVal → Bool
+  | .null => true
+  | _ => false
+
+/-- a scalar request at any value: a null slot fails, except `()` / a unit struct at a `Null` column -/
+def presentScalar (c : TextCodec) (t : Target) (a : Arr) (lv : LVal) : Demand DVal :=
+  match lv with
+  | .null =>
+    (match t with
+     | .unit | .unitStruct => if isNullColumn a then .value .unit else .fails
+     | _ => .fails)
+  | lv => presentLeaf c t (leafKind a lv)
+
+/-! ### containers -/
+
+def binaryColumn : Arr → Bool
+  | .bytes ty _ _ _ => !isUtf8Ty ty
+  | .bytesView ty _ _ _ => ty != .utf8View
+  | .fixedSizeBinary _ _ _ => true
+  | _ => false
+
+def textColumn : Arr → Bool
+  | .bytes ty _ _ _ => isUtf8Ty ty
+  | .bytesView ty _ _ _ => ty == .utf8View
+  | .dictionary _ _ => true
+  | _ => false
+
+/-- one byte of a binary value read as an element of a sequence: a `u8` under `deserialize_any`, by value into any integer
+type; nothing else -/
+def byteAs (t : Target) (b : UInt8) : Demand DVal :=
+  match t with
+  | .any => .value (presentByte b)
+  | .ignored => .value .ignored
+  | .int ty => if ty.inRange b.toNat then .value (.int ty b.toNat) else .fails
+  | _ => .fails
+
+def itemsRead (f : LVal → Demand DVal) : LVals → Demand (List DVal)
+  | .nil => .value []
+  | .cons v r => Demand.cons (f v) (itemsRead f r)
+
+def entriesRead (fk fv : LVal → Demand DVal) : LEntries → Demand (List (DVal × DVal))
+  | .nil => .value []
+  | .cons k v r => Demand.cons (Demand.both (fk k) (fv v)) (entriesRead fk fv r)
+
+/-- "enums without data as strings": the unit variant of that name -/
+def unitVariantNamed : TVariants → Bytes → Demand DVal
+  | .nil, _ => .fails
+  | .cons n k rest, s =>
+    if strBytes n == s then
+      (match k with
+       | .unit => .value (.enum (.str .transient (strBytes n)) .unit)
+       | _ => .fails)
+    else unitVariantNamed rest s
+
+/-- a struct field NAME as a map key: a string (`String`, `ByteBuf`, `deserialize_any`), ignored, a `char` when it is one
+character, the unit variant of that name; a name cannot be borrowed and is nothing else -/
+def nameAsKey (k : Target) (name : String) : Demand DVal :=
+  match k with
+  | .any => .value (.str .transient (strBytes name))
+  | .ignored => .value .ignored
+  | .string => .value (.str .owned (strBytes name))
+  | .byteBuf => .value (.bytes .owned (strBytes name))
+  | .char => (match name.toList with | [ch] => .value (.char ch.toNat) | _ => .fails)
+  | .enum byIndex vs => if byIndex then .fails else unitVariantNamed vs (strBytes name)
+  | _ => .fails
+
+/-- the fields of a struct value as map entries -/
+def fieldsAsEntries (key : String → Demand DVal) (f : Arr → LVal → Demand DVal) : ArrFields → LFields → Demand (List (DVal × DVal))
+  | .cons fm a rest, .cons _ lv lrest => Demand.cons (Demand.both (key fm.name) (f a lv)) (fieldsAsEntries key f rest lrest)
+  | _, _ => .value []
+
+def columnNames : ArrFields → List String
+  | .nil => []
+  | .cons fm _ r => fm.name :: columnNames r
+
+def targetNames : TFields → List String
+  | .nil => []
+  | .cons n _ r => n :: targetNames r
+
+def distinct : List String → Bool
+  | [] => true
+  | x :: xs => !xs.contains x && distinct xs
+
+/-- the column and the value of the struct field called `name` -/
+def childNamed : ArrFields → LFields → String → Option (Arr × LVal)
+  | .cons fm a rest, .cons _ v lrest, name => if fm.name == name then some (a, v) else childNamed rest lrest name
+  | _, _, _ => none
+
+/-- tuples and tuple structs: the fields of a `Struct` column by position -/
+def byPosition (f : ArrFields → LFields → Demand (List DVal)) (a : Arr) (lv : LVal) : Demand DVal :=
+  match a, lv with
+  | .struct _ _ fs, .struct lfs => (f fs lfs).map fun ds => .seq (DVals.ofList ds)
+  | _, _ => .fails
+
+/-- structs by field name; where names repeat (among the target's fields — no Rust type — or among the children of the
+column) reading by name has no meaning: no claim -/
+def byName (tnames : List String) (f : ArrFields → LFields → Demand (List (DVal × DVal))) (a : Arr) (lv : LVal) : Demand DVal :=
+  match a, lv with
+  | .struct _ _ fs, .struct lfs =>
+    if distinct (columnNames fs) && distinct tnames then (f fs lfs).map fun es => .map (DEntries.ofList es) else .unclaimed
+  | _, _ => .fails
+
+def byteOfElem : DVal → UInt8
+  | .int _ v => UInt8.ofNat v.toNat
+  | _ => 0
+
+/-! ### every request -/
+
+mutual
+/-- **what a typed read of the logical value `lv` of a slot of column `a` gives**, for the requested Rust type `t` -/
+def typedRead (c : TextCodec) : Target → Arr → LVal → Demand DVal
+  | .any, a, lv => .value (presentAny c a lv)
+  | .ignored, _, _ => .value .ignored
+  | .option t, a, lv =>
+    match lv with
+    | .null => .value .none                                   -- `None` exactly at a null slot
+    | lv => (typedRead c t a lv).map .some
+  | .newtype t, a, lv => typedRead c t a lv
+  | .seq t, a, lv =>
+    match a, lv with
+    | .list _ _ _ _ el, .list items | .fixedSizeList _ _ _ _ el, .list items =>
+      (itemsRead (fun v => typedRead c t el v) items).map fun ds => .seq (DVals.ofList ds)
+    | a, .bin b =>                                             -- `Vec<u8>` from a binary column
+      if binaryColumn a then (Demand.all (b.map (byteAs t))).map fun ds => .seq (DVals.ofList ds) else .fails
+    | _, _ => .fails
+  | .tuple ts, a, lv => byPosition (fun fs lfs => positional c ts fs lfs) a lv
+  | .tupleStruct ts, a, lv => byPosition (fun fs lfs => positional c ts fs lfs) a lv
+  | .map k v, a, lv =>
+    match a, lv with
+    | .struct _ _ fs, .struct lfs =>
+      (fieldsAsEntries (nameAsKey k) (fun ch w => typedRead c v ch w) fs lfs).map fun es => .map (DEntries.ofList es)
+    | .map _ _ _ ks vs, .map es =>
+      (entriesRead (fun w => typedRead c k ks w) (fun w => typedRead c v vs w) es).map fun es => .map (DEntries.ofList es)
+    | _, _ => .fails
+  | .struct tfs, a, lv => byName (targetNames tfs) (fun fs lfs => named c tfs fs lfs) a lv
+  | .enum byIndex vs, a, lv =>
+    match a, lv with
+    | .union _ _ fs, .union t v =>
+      (match variantOf fs t with
+       | none => .fails
+       | some (fm, child) => variantRead c vs (if byIndex then some t.toNat else none) fm.name child v)
+    | a, .str b => if textColumn a && !byIndex then unitVariantNamed vs b else .fails
+    | _, _ => .fails
+  | .byteBuf, a, lv =>
+    match a, lv with
+    | .list _ _ _ _ el, .list items =>                         -- a `ByteBuf` from a list column: every element by value as `u8`
+      (itemsRead (fun v => presentScalar c (.int .u8) el v) items).map fun ds => .bytes .owned (ds.map byteOfElem)
+    | a, lv => presentScalar c .byteBuf a lv
+  | .unit, a, lv => presentScalar c .unit a lv
+  | .unitStruct, a, lv => presentScalar c .unitStruct a lv
+  | .bool, a, lv => presentScalar c .bool a lv
+  | .int ty, a, lv => presentScalar c (.int ty) a lv
+  | .f32, a, lv => presentScalar c .f32 a lv
+  | .f64, a, lv => presentScalar c .f64 a lv
+  | .char, a, lv => presentScalar c .char a lv
+  | .string, a, lv => presentScalar c .string a lv
+  | .str, a, lv => presentScalar c .str a lv
+  | .bytes, a, lv => presentScalar c .bytes a lv
+/-- element `i` of a tuple from field `i` of the struct; a tuple longer than the struct fails; surplus fields are not part of
+a tuple -/
+def positional (c : TextCodec) : Targets → ArrFields → LFields → Demand (List DVal)
+  | .nil, _, _ => .value []
+  | .cons t rest, .cons _ a frest, .cons _ v lrest => Demand.cons (typedRead c t a v) (positional c rest frest lrest)
+  | .cons _ _, _, _ => .fails
+/-- every field of the target from the struct field of that name; a field without column is `None` for an `Option`, else the
+read fails ("a missing required field") -/
+def named (c : TextCodec) : TFields → ArrFields → LFields → Demand (List (DVal × DVal))
+  | .nil, _, _ => .value []
+  | .cons n t rest, fs, lfs =>
+    Demand.cons
+      ((match childNamed fs lfs n with
+        | some (a, v) => typedRead c t a v
+        | none => if t.isOption then .value .none else .fails).map fun d => (DVal.str .transient (strBytes n), d))
+      (named c rest fs lfs)
+/-- the variant of the target selected by the column's variant: by name (`sel = none`) or by position -/
+def variantRead (c : TextCodec) : TVariants → Option Nat → String → Arr → LVal → Demand DVal
+  | .nil, _, _, _, _ => .fails
+  | .cons n k rest, sel, name, child, v =>
+    if (match sel with | some i => i == 0 | none => n == name) then
+      (payloadRead c k child v).map fun p => .enum (.str .transient (strBytes n)) p
+    else variantRead c rest (sel.map (· - 1)) name child v
+def payloadRead (c : TextCodec) : VKind → Arr → LVal → Demand DVal
+  | .unit, child, v => if isNullColumn child && isNullValue v then .value .unit else .fails
+  | .newtype t, child, v => typedRead c t child v
+  | .tuple ts, child, v => byPosition (fun fs lfs => positional c ts fs lfs) child v
+  | .struct tfs, child, v => byName (targetNames tfs) (fun fs lfs => named c tfs fs lfs) child v
+end
 
 end SaModel.Spec
